@@ -1,24 +1,92 @@
 import Xp.Model.C08
 /-
 C08 store lemmas: every API call of the modelled alphabet, every environment
-action and a crash move the store "forward" in the teardown order `Le`:
-objects are never created, immutable fields never change, a deletionTimestamp is
-never unset, the Lock only loses packages and no controller is started.
+action (deletion, garbage collection, finalizer removal, third-party edit) and a crash
+move a well-formed store "forward" in the teardown order `Le`: objects are never
+created, identity fields never change, editable fields change only together with the
+resourceVersion, a deletionTimestamp is never unset, the Lock only loses packages and
+no controller is started.
 -/
 namespace Xp.C08
 
-/-- `o'` is a later version of `o` -/
-def Obj.Mono (o o' : Obj) : Prop :=
-  o'.key = o.key ∧ o'.uid = o.uid ∧ o'.ref = o.ref ∧ o'.of = o.of ∧ o'.flag = o.flag ∧ o'.owners = o.owners ∧
-  (o.del = true → o'.del = true) ∧ (∀ p ∈ o'.pkgs, p ∈ o.pkgs)
+/-- `o'` is a later version of `o`: identity fields never change, a deletionTimestamp is
+never unset, a Lock only loses packages, resourceVersions only grow, and the fields a
+third party may edit (`ref`, `flag` of an editable kind) are the same whenever the
+resourceVersion is. -/
+structure Obj.Mono (o o' : Obj) : Prop where
+  key : o'.key = o.key
+  uid : o'.uid = o.uid
+  of_ : o'.of = o.of
+  owners : o'.owners = o.owners
+  refKind : o'.refKind = o.refKind
+  ofKind : o'.ofKind = o.ofKind
+  del : o.del = true → o'.del = true
+  pkgs : ∀ p ∈ o'.pkgs, p ∈ o.pkgs
+  rv : o.rv ≤ o'.rv
+  same : (o'.rv = o.rv ∨ editable o.key.kind = false) → o'.ref = o.ref ∧ o'.flag = o.flag
 
-theorem Obj.Mono.refl (o : Obj) : Obj.Mono o o := ⟨rfl, rfl, rfl, rfl, rfl, rfl, id, fun _ h => h⟩
+theorem Obj.Mono.refl (o : Obj) : Obj.Mono o o :=
+  ⟨rfl, rfl, rfl, rfl, rfl, rfl, id, fun _ h => h, Nat.le_refl _, fun _ => ⟨rfl, rfl⟩⟩
 
-theorem Obj.Mono.trans {a b c : Obj} (h1 : Obj.Mono a b) (h2 : Obj.Mono b c) : Obj.Mono a c := by
-  obtain ⟨a1, a2, a3, a4, a5, a6, a7, a8⟩ := h1
-  obtain ⟨b1, b2, b3, b4, b5, b6, b7, b8⟩ := h2
-  exact ⟨b1.trans a1, b2.trans a2, b3.trans a3, b4.trans a4, b5.trans a5, b6.trans a6,
-    fun h => b7 (a7 h), fun p hp => a8 p (b8 p hp)⟩
+theorem Obj.Mono.trans {a b c : Obj} (h1 : Obj.Mono a b) (h2 : Obj.Mono b c) : Obj.Mono a c where
+  key := h2.key.trans h1.key
+  uid := h2.uid.trans h1.uid
+  of_ := h2.of_.trans h1.of_
+  owners := h2.owners.trans h1.owners
+  refKind := h2.refKind.trans h1.refKind
+  ofKind := h2.ofKind.trans h1.ofKind
+  del := fun h => h2.del (h1.del h)
+  pkgs := fun p hp => h1.pkgs p (h2.pkgs p hp)
+  rv := Nat.le_trans h1.rv h2.rv
+  same := by
+    intro h
+    have hk : b.key.kind = a.key.kind := by rw [h1.key]
+    rcases h with h | h
+    · have e1 : b.rv = a.rv := Nat.le_antisymm (h ▸ h2.rv) h1.rv
+      have e2 : c.rv = b.rv := h.trans e1.symm
+      have s1 := h1.same (.inl e1)
+      have s2 := h2.same (.inl e2)
+      exact ⟨s2.1.trans s1.1, s2.2.trans s1.2⟩
+    · have s1 := h1.same (.inr h)
+      have s2 := h2.same (.inr (hk ▸ h))
+      exact ⟨s2.1.trans s1.1, s2.2.trans s1.2⟩
+
+/-- what a write may do to the object it replaces, the resourceVersion aside: `ref` and
+`flag` may change only on the editable kinds -/
+structure Obj.Upd (o o' : Obj) : Prop where
+  key : o'.key = o.key
+  uid : o'.uid = o.uid
+  of_ : o'.of = o.of
+  owners : o'.owners = o.owners
+  refKind : o'.refKind = o.refKind
+  ofKind : o'.ofKind = o.ofKind
+  del : o.del = true → o'.del = true
+  pkgs : ∀ p ∈ o'.pkgs, p ∈ o.pkgs
+  same : editable o.key.kind = false → o'.ref = o.ref ∧ o'.flag = o.flag
+
+/-- a write that leaves `ref` and `flag` alone -/
+theorem Obj.Upd.of_eq {o o' : Obj} (key : o'.key = o.key) (uid : o'.uid = o.uid) (of_ : o'.of = o.of)
+    (owners : o'.owners = o.owners) (refKind : o'.refKind = o.refKind) (ofKind : o'.ofKind = o.ofKind)
+    (del : o.del = true → o'.del = true) (pkgs : ∀ p ∈ o'.pkgs, p ∈ o.pkgs)
+    (ref : o'.ref = o.ref) (flag : o'.flag = o.flag) : Obj.Upd o o' :=
+  ⟨key, uid, of_, owners, refKind, ofKind, del, pkgs, fun _ => ⟨ref, flag⟩⟩
+
+/-- stored under a fresh resourceVersion, an updated object is a later version -/
+theorem Obj.Upd.mono {o o' : Obj} (h : Obj.Upd o o') (n : Nat) (hn : o.rv < n) : Obj.Mono o { o' with rv := n } where
+  key := h.key
+  uid := h.uid
+  of_ := h.of_
+  owners := h.owners
+  refKind := h.refKind
+  ofKind := h.ofKind
+  del := h.del
+  pkgs := h.pkgs
+  rv := Nat.le_of_lt hn
+  same := by
+    intro hh
+    rcases hh with hh | hh
+    · exact absurd (show n = o.rv from hh) (Nat.ne_of_gt hn)
+    · exact h.same hh
 
 /-- `s'` is a teardown-successor of `s` -/
 structure Le (s s' : St) : Prop where
@@ -148,137 +216,200 @@ theorem le_nextRv (s : St) (n : Nat) : Le s { s with nextRv := n } :=
 theorem le_running (s : St) (r : List String) (h : ∀ c ∈ r, c ∈ s.running) : Le s { s with running := r } :=
   ⟨fun o h => ⟨o, h, rfl⟩, fun _ o h => ⟨o, h, Obj.Mono.refl o⟩, h⟩
 
+/-! ### well-formed stores -/
+
+theorem wf_put {s : St} (hw : WF s) (o : Obj) (ho : o.rv < s.nextRv) : WF (put s o) := by
+  intro x hx
+  simp only [put, List.mem_map] at hx
+  obtain ⟨y, hy, rfl⟩ := hx
+  split
+  · exact ho
+  · exact hw y hy
+
+theorem wf_erase {s : St} (hw : WF s) (k : Key) : WF (erase s k) := by
+  intro x hx
+  simp only [erase, List.mem_filter] at hx
+  exact hw x hx.1
+
+theorem wf_bump {s : St} (hw : WF s) : WF { s with nextRv := s.nextRv + 1 } :=
+  fun o ho => Nat.lt_succ_of_lt (hw o ho)
+
+theorem wf_running {s : St} (hw : WF s) (r : List String) : WF { s with running := r } := hw
+
+/-- a step of the store that stays well-formed -/
+structure Step (s s' : St) : Prop where
+  le : Le s s'
+  wf : WF s'
+
+theorem Step.refl {s : St} (hw : WF s) : Step s s := ⟨Le.refl s, hw⟩
+
+theorem Step.trans {a b c : St} (h1 : Step a b) (h2 : Step b c) : Step a c := ⟨h1.le.trans h2.le, h2.wf⟩
+
+/-- replace the stored `o` by `o'` under the next resourceVersion -/
+theorem step_bump_put {s : St} (hw : WF s) (o o' : Obj) (ho : find s o.key = some o) (hu : Obj.Upd o o') :
+    Step s (put { s with nextRv := s.nextRv + 1 } { o' with rv := s.nextRv }) := by
+  have hlt : o.rv < s.nextRv := hw o (find_mem ho)
+  refine ⟨(le_nextRv s _).trans (le_put _ _ ?_), wf_put (wf_bump hw) _ (Nat.lt_succ_self _)⟩
+  intro o0 h0
+  have hk : ({ o' with rv := s.nextRv } : Obj).key = o.key := hu.key
+  rw [hk, find_nextRv, ho] at h0
+  cases h0
+  exact hu.mono _ hlt
+
+theorem step_bump_erase {s : St} (hw : WF s) (k : Key) : Step s (erase { s with nextRv := s.nextRv + 1 } k) :=
+  ⟨(le_nextRv s _).trans (le_erase _ _), wf_erase (wf_bump hw) _⟩
+
 /-! ### the operations -/
 
-theorem le_commit (s : St) (o o' : Obj) (ho : find s o.key = some o) (hm : Obj.Mono o o') :
-    Le s (commit s o o').1 := by
+theorem step_commit {s : St} (hw : WF s) (o o' : Obj) (ho : find s o.key = some o) (hu : Obj.Upd o o') :
+    Step s (commit s o o').1 := by
   unfold commit
   split
-  · exact Le.refl s
+  · exact Step.refl hw
   · simp only []
     split
-    · exact (le_nextRv s _).trans (le_erase _ _)
-    · refine (le_nextRv s _).trans (le_put _ _ ?_)
-      intro o0 h0
-      have hk : ({ o' with rv := s.nextRv } : Obj).key = o.key := hm.1
-      rw [hk, find_nextRv, ho] at h0
-      cases h0
-      exact hm
+    · exact step_bump_erase hw _
+    · exact step_bump_put hw o o' ho hu
 
-theorem le_withObj (s : St) (k : Key) (rv : Nat) (f : Obj → Obj) (hf : ∀ o, Obj.Mono o (f o)) :
-    Le s (withObj s k rv f).1 := by
+theorem step_withObj {s : St} (hw : WF s) (k : Key) (rv : Nat) (f : Obj → Obj) (hf : ∀ o, Obj.Upd o (f o)) :
+    Step s (withObj s k rv f).1 := by
   unfold withObj
   cases h : find s k with
-  | none => exact Le.refl s
+  | none => exact Step.refl hw
   | some o =>
     simp only []
     split
-    · exact Le.refl s
+    · exact Step.refl hw
     · have hk := find_key h
-      exact le_commit s o (f o) (by rw [hk]; exact h) (hf o)
+      exact step_commit hw o (f o) (by rw [hk]; exact h) (hf o)
 
-theorem le_deleteWith (s : St) (o : Obj) (fins : List String) (ho : find s o.key = some o) : Le s (deleteWith s o fins) := by
+theorem step_deleteWith {s : St} (hw : WF s) (o : Obj) (fins : List String) (ho : find s o.key = some o) :
+    Step s (deleteWith s o fins) := by
   unfold deleteWith
   split
-  · exact le_erase _ _
+  · exact ⟨le_erase _ _, wf_erase hw _⟩
   · split
-    · exact Le.refl s
-    · refine (le_nextRv s _).trans (le_put _ _ ?_)
-      intro o0 h0
-      simp only [find_nextRv] at h0
-      rw [ho] at h0
-      cases h0
-      exact ⟨rfl, rfl, rfl, rfl, rfl, rfl, fun _ => rfl, fun _ h => h⟩
+    · exact Step.refl hw
+    · exact step_bump_put hw o { o with fins := fins, del := true } ho
+        (.of_eq rfl rfl rfl rfl rfl rfl (fun _ => rfl) (fun _ h => h) rfl rfl)
 
-theorem le_deleteObj (s : St) (o : Obj) (fg : Bool) (ho : find s o.key = some o) : Le s (deleteObj s o fg) :=
-  le_deleteWith s o _ ho
+theorem step_deleteObj {s : St} (hw : WF s) (o : Obj) (fg : Bool) (ho : find s o.key = some o) : Step s (deleteObj s o fg) :=
+  step_deleteWith hw o _ ho
 
-theorem le_deleteKey (s : St) (k : Key) (fg : Bool) : Le s (deleteKey s k fg) := by
+theorem step_deleteKey {s : St} (hw : WF s) (k : Key) (fg : Bool) : Step s (deleteKey s k fg) := by
   unfold deleteKey
   cases h : find s k with
-  | none => exact Le.refl s
+  | none => exact Step.refl hw
   | some o =>
     have hk := find_key h
-    exact le_deleteObj s o fg (by rw [hk]; exact h)
+    exact step_deleteObj hw o fg (by rw [hk]; exact h)
 
-theorem le_foldl {α : Type} (f : St → α → St) (hf : ∀ s a, Le s (f s a)) (l : List α) (s : St) : Le s (l.foldl f s) := by
+theorem step_foldl {α : Type} (f : St → α → St) (hf : ∀ s a, WF s → Step s (f s a)) (l : List α) (s : St) (hw : WF s) :
+    Step s (l.foldl f s) := by
   induction l generalizing s with
-  | nil => exact Le.refl s
-  | cons a rest ih => exact (hf s a).trans (ih _)
+  | nil => exact Step.refl hw
+  | cons a rest ih => exact (hf s a hw).trans (ih _ (hf s a hw).wf)
 
-theorem le_exec (s : St) (r : Req) : Le s (exec s r).1 := by
+theorem step_exec {s : St} (hw : WF s) (r : Req) : Step s (exec s r).1 := by
   cases r with
-  | get k => exact Le.refl s
-  | list kd => exact Le.refl s
-  | listUsagesOf n => exact Le.refl s
+  | get k => exact Step.refl hw
+  | list kd => exact Step.refl hw
+  | listUsagesOf kd n => exact Step.refl hw
   | setStatus k rv conds =>
-    exact le_withObj s k rv _ (fun o => ⟨rfl, rfl, rfl, rfl, rfl, rfl, id, fun _ h => h⟩)
+    exact step_withObj hw k rv _ (fun o => .of_eq rfl rfl rfl rfl rfl rfl id (fun _ h => h) rfl rfl)
   | removeFin k rv fin =>
-    exact le_withObj s k rv _ (fun o => ⟨rfl, rfl, rfl, rfl, rfl, rfl, id, fun _ h => h⟩)
+    exact step_withObj hw k rv _ (fun o => .of_eq rfl rfl rfl rfl rfl rfl id (fun _ h => h) rfl rfl)
   | delete k fg =>
     simp only [exec]
     cases h : find s k with
-    | none => exact Le.refl s
+    | none => exact Step.refl hw
     | some o =>
       have hk := find_key h
-      exact le_deleteObj s o fg (by rw [hk]; exact h)
+      exact step_deleteObj hw o fg (by rw [hk]; exact h)
   | deleteAll kd =>
     simp only [exec]
-    exact le_foldl _ (fun s (o : Obj) => le_deleteKey s o.key false) _ _
+    exact step_foldl _ (fun s (o : Obj) hw => step_deleteKey hw o.key false) _ _ hw
   | lockRemove rv pkg =>
-    exact le_withObj s lockKey rv _ (fun o => ⟨rfl, rfl, rfl, rfl, rfl, rfl, id, fun p h => (List.mem_filter.mp h).1⟩)
+    exact step_withObj hw lockKey rv _
+      (fun o => .of_eq rfl rfl rfl rfl rfl rfl id (fun p h => (List.mem_filter.mp h).1) rfl rfl)
   | unlabel k rv =>
-    exact le_withObj s k rv _ (fun o => ⟨rfl, rfl, rfl, rfl, rfl, rfl, id, fun _ h => h⟩)
+    exact step_withObj hw k rv _ (fun o => .of_eq rfl rfl rfl rfl rfl rfl id (fun _ h => h) rfl rfl)
   | stop c =>
     simp only [exec]
-    exact le_running s _ (fun c h => (List.mem_filter.mp h).1)
-  | cacheDelete n => exact Le.refl s
+    exact ⟨le_running s _ (fun c h => (List.mem_filter.mp h).1), wf_running hw _⟩
+  | cacheDelete n => exact Step.refl hw
 
-theorem le_envUnfin (s : St) (k : Key) (f : String) : Le s (envUnfin s k f) := by
+theorem le_exec {s : St} (hw : WF s) (r : Req) : Le s (exec s r).1 := (step_exec hw r).le
+
+theorem step_envUnfin {s : St} (hw : WF s) (k : Key) (f : String) : Step s (envUnfin s k f) := by
   unfold envUnfin
   cases h : find s k with
-  | none => exact Le.refl s
+  | none => exact Step.refl hw
   | some o =>
     have hk := find_key h
-    exact le_commit s o _ (by rw [hk]; exact h) ⟨rfl, rfl, rfl, rfl, rfl, rfl, id, fun _ h => h⟩
+    exact step_commit hw o _ (by rw [hk]; exact h) (.of_eq rfl rfl rfl rfl rfl rfl id (fun _ h => h) rfl rfl)
 
-theorem le_crash (s : St) : Le s (crash s) := le_running s [] (fun _ h => by cases h)
+/-- an edit changes `ref` / `flag` of an editable kind only -/
+theorem step_envEdit {s : St} (hw : WF s) (k : Key) (e : Edit) : Step s (envEdit s k e) := by
+  unfold envEdit
+  split
+  · rename_i hed
+    cases h : find s k with
+    | none => exact Step.refl hw
+    | some o =>
+      have hk := find_key h
+      refine step_commit hw o _ (by rw [hk]; exact h) ?_
+      have hne : ¬ editable o.key.kind = false := by rw [hk, hed]; simp
+      cases e with
+      | flip => exact ⟨rfl, rfl, rfl, rfl, rfl, rfl, id, fun _ h => h, fun h => absurd h hne⟩
+      | ref v => exact ⟨rfl, rfl, rfl, rfl, rfl, rfl, id, fun _ h => h, fun h => absurd h hne⟩
+  · exact Step.refl hw
 
-theorem le_gcStep (s : St) : Le s (gcStep s) := by
+theorem step_crash {s : St} (hw : WF s) : Step s (crash s) :=
+  ⟨le_running s [] (fun _ h => by cases h), wf_running hw _⟩
+
+theorem step_gcStep {s : St} (hw : WF s) : Step s (gcStep s) := by
   unfold gcStep
   simp only []
-  refine Le.trans (le_foldl _ ?_ _ _) (le_foldl _ ?_ _ _)
-  · intro acc o
+  refine Step.trans (step_foldl _ ?_ _ _ hw) (step_foldl _ ?_ _ _ ?_)
+  · intro acc o hw
     cases h : find acc o.key with
-    | none => exact Le.refl _
+    | none => exact Step.refl hw
     | some c =>
       simp only []
       have hk := find_key h
+      have hc : find acc c.key = some c := by rw [hk]; exact h
       split
       · split
-        · exact Le.refl _
-        · refine (le_nextRv acc _).trans (le_put _ _ ?_)
-          intro o0 h0
-          simp only [find_nextRv] at h0
-          rw [hk, h] at h0
-          cases h0
-          exact ⟨rfl, rfl, rfl, rfl, rfl, rfl, fun _ => rfl, fun _ h => h⟩
-      · exact le_erase _ _
-  · intro acc o
+        · exact Step.refl hw
+        · exact step_bump_put hw c { c with del := true } hc
+            (.of_eq rfl rfl rfl rfl rfl rfl (fun _ => rfl) (fun _ h => h) rfl rfl)
+      · exact ⟨le_erase _ _, wf_erase hw _⟩
+  · intro acc o hw
     cases h : find acc o.key with
-    | none => exact Le.refl _
+    | none => exact Step.refl hw
     | some c =>
       simp only []
       have hk := find_key h
+      have hc : find acc c.key = some c := by rw [hk]; exact h
       split
       · split
-        · exact (le_nextRv acc _).trans (le_erase _ _)
-        · refine (le_nextRv acc _).trans (le_put _ _ ?_)
-          intro o0 h0
-          simp only [find_nextRv] at h0
-          rw [hk, h] at h0
-          cases h0
-          exact ⟨rfl, rfl, rfl, rfl, rfl, rfl, id, fun _ h => h⟩
-      · exact Le.refl _
+        · exact step_bump_erase hw _
+        · exact step_bump_put hw c { c with fins := c.fins.filter (· ≠ fgFin) } hc
+            (.of_eq rfl rfl rfl rfl rfl rfl id (fun _ h => h) rfl rfl)
+      · exact Step.refl hw
+  · exact (step_foldl _ (fun acc (o : Obj) hw => by
+      cases h : find acc o.key with
+      | none => exact Step.refl hw
+      | some c =>
+        simp only []
+        have hk := find_key h
+        have hc : find acc c.key = some c := by rw [hk]; exact h
+        split
+        · split
+          · exact Step.refl hw
+          · exact step_bump_put hw c { c with del := true } hc
+              (.of_eq rfl rfl rfl rfl rfl rfl (fun _ => rfl) (fun _ h => h) rfl rfl)
+        · exact ⟨le_erase _ _, wf_erase hw _⟩) _ _ hw).wf
 
 end Xp.C08
